@@ -144,6 +144,11 @@ func Run(t *testing.T, opt Options, scenario func(e *Env)) *Outcome {
 	oldRand := crand.Reader
 	crand.Reader = simrt.NewRand(simrt.Mix(opt.Seed, 12))
 	lim := opt.Limit
+	if lim == 0 {
+		// teleport's default read limit is 1 GB: garbage in a length field would make the simulated peer
+		// really allocate that much.  Scenarios that do not care use 4 MB.
+		lim = 4 << 20
+	}
 	socket.SetMessageSizeLimit(lim)
 	if opt.ReaderSize > 0 {
 		socket.VerifSetReaderSize(opt.ReaderSize)
